@@ -1,3 +1,28 @@
-/-! # C14 — (stub: property theorems go here; see docs/BUILDING.md) -/
+import PtVerif.Proofs.Activation
+/-!
+# C14 — activation equals the solution of the documented capture/decay chains
+
+(first end-to-end version: single-capture branch; extended below as the proofs grow)
+-/
 namespace PtVerif.C14
+open PtModel.Activation
+
+/-- single capture with burn-up: the closed form solves `N_t' = -a N_t`, `N_p' = a N_t - c N_p`
+    with `N_t(0) = N0`, `N_p(0) = 0` -/
+theorem act_solves (N0 a c t : ℝ) :
+    HasDerivAt (actNt N0 a) (-a * actNt N0 a t) t ∧
+    HasDerivAt (actNp N0 a c) (a * actNt N0 a t - c * actNp N0 a c t) t ∧
+    actNt N0 a 0 = N0 ∧ actNp N0 a c 0 = 0 :=
+  ⟨actNt_deriv N0 a t, actNp_deriv N0 a c t, actNt_zero N0 a, actNp_zero N0 a c⟩
+
+/-- … and `activity()` returns `λ·N_p(T)` of that chain, never negative, never an error, for
+    physical inputs -/
+theorem nonneg_act {c : Consts ℝ} {r : Row ℝ} {mass : ℝ} {env : Env ℝ} {T : ℝ}
+    (h : Physical c r mass env T) (hr : r.reaction = .act)
+    (hin : ¬ (r.fast = true ∧ env.fastRatio = 0)) :
+    activityRow c r mass env T =
+      .ok (some (rateLam c r * actNp (atoms0 c r mass) (rateA env r) (rateLam c r + rateB env r) T))
+    ∧ 0 ≤ rateLam c r * actNp (atoms0 c r mass) (rateA env r) (rateLam c r + rateB env r) T :=
+  activityRow_act_ok h hr hin
+
 end PtVerif.C14
